@@ -37,6 +37,29 @@ type Proxy struct {
 	stalled []chan struct{}
 	closed  bool
 	open    []net.Conn
+	// methodErrors: requests with these methods are answered by the proxy itself with
+	// the given JSON-RPC error (as a server lacking or refusing the method would)
+	methodErrors map[string]string
+}
+
+// SetMethodErrors makes the proxy answer requests of the given methods with an error
+// instead of forwarding them (nil: forward everything).
+func (p *Proxy) SetMethodErrors(m map[string]string) {
+	p.mu.Lock()
+	defer p.mu.Unlock()
+	p.methodErrors = m
+}
+
+// lockedConn serialises writes of the two pumps that may write to the client side.
+type lockedConn struct {
+	net.Conn
+	wmu sync.Mutex
+}
+
+func (l *lockedConn) Write(b []byte) (int, error) {
+	l.wmu.Lock()
+	defer l.wmu.Unlock()
+	return l.Conn.Write(b)
 }
 
 // StartProxy listens on a fresh unix socket and forwards to target.
@@ -137,10 +160,11 @@ func (p *Proxy) Close() {
 
 func (p *Proxy) accept() {
 	for {
-		c, err := p.ln.Accept()
+		rawc, err := p.ln.Accept()
 		if err != nil {
 			return
 		}
+		var c net.Conn = &lockedConn{Conn: rawc}
 		s, err := net.Dial("unix", p.target)
 		if err != nil {
 			_ = c.Close()
@@ -189,7 +213,28 @@ func (p *Proxy) pump(idx, dir int, from, to net.Conn, cut func(), stall chan str
 			stalledNow = true
 		default:
 		}
+		reject := ""
+		var rejectID *json.RawMessage
+		if dir == C2S && len(p.methodErrors) > 0 {
+			var msg struct {
+				Method string           `json:"method"`
+				ID     *json.RawMessage `json:"id"`
+			}
+			if json.Unmarshal(raw, &msg) == nil && msg.ID != nil && string(*msg.ID) != "null" {
+				if e, ok := p.methodErrors[msg.Method]; ok {
+					reject, rejectID = e, msg.ID
+				}
+			}
+		}
 		p.mu.Unlock()
+		if reject != "" && !stalledNow && fault == nil {
+			reply, _ := json.Marshal(map[string]interface{}{"id": rejectID, "result": nil, "error": reject})
+			if _, err := from.Write(append(reply, '\n')); err != nil {
+				cut()
+				return
+			}
+			continue
+		}
 		if stalledNow {
 			continue // swallow
 		}
